@@ -86,6 +86,10 @@ class ExprReader:
                 return op("diff", self.term(n.func.value), *[self.term(a) for a in n.args])
             if last in ("sympify", "S", "simplify", "list", "tuple") and len(n.args) >= 1:
                 return self.ev(n.args[0])
+            if last in ("Integer", "Float", "Rational") and len(n.args) == 1:
+                a = self.term(n.args[0])
+                if a.op == "num":
+                    return a
             if last == "Rational" and len(n.args) == 2:
                 a, b = self.term(n.args[0]), self.term(n.args[1])
                 if a.op == "num" and b.op == "num":
